@@ -143,6 +143,12 @@ def same(a, b):
         return False
 
 
+def same_payload(a, b):
+    if isinstance(a, tuple) and isinstance(b, tuple):
+        return len(a) == len(b) and all(same_payload(x, y) for x, y in zip(a, b))
+    return same(a, b) or (isinstance(a, BaseException) and a is b)
+
+
 def script(model, info, art, extra_ns=None, msg_factory=None):
     cfg = info.get("cfg")
     if not cfg:
@@ -197,9 +203,8 @@ def script(model, info, art, extra_ns=None, msg_factory=None):
     if diff is None and len(oi) != len(orr):
         diff = f"real wrapper produced {len(oi)} outcomes, reference {len(orr)}"
     if diff is None:
-        li = [(a, b, c) for a, b, c, d in logs["impl"]]
-        lr = [(a, b, c) for a, b, c, d in logs["ref"]]
-        if li != lr:
+        li, lr = logs["impl"], logs["ref"]
+        if len(li) != len(lr) or any(x[:3] != y[:3] or not same_payload(x[3], y[3]) for x, y in zip(li, lr)):
             diff = f"calls on sub-generators differ: real {li[-5:]} vs reference {lr[-5:]}"
     detail = f"script {info['script']} with sub-generator outcomes {info.get('oracle')}: " + (diff or "identical behaviour")
     return ("confirmed" if diff else "contradicted"), detail
